@@ -273,7 +273,6 @@ def Err.name : Err → String
 inductive Stop where
   | eof                 -- end of file reached: the decoder seeks to 0, resets its header accumulator and goes on
   | err (e : Err)       -- Scan returned this error
-  | unknown             -- outside the model (sizes that make `make([]byte, n)` allocate gigabytes)
 deriving DecidableEq, Repr
 
 /-- first `k` elements of `xs` repeated for ever (`[]` when `xs = []`) -/
